@@ -13,7 +13,10 @@ def run(tier, seed):
     args = ["-runs", 120, "-steps", 220] if tier == "quick" else ["-runs", 1500, "-steps", 400]
     # replicas that commit a long branch at once (a burst of execute events): a replica cut off for a dozen views that catches up
     k = 10 if tier == "quick" else 200
-    more = [["-heal", "-nobyz", "-suffix", 16, "-only", "long-laggard", "-runs", k, "-steps", 400, "-rulesets", "chainedhotstuff,simplehotstuff"],
+    more = [  # calm runs in which the Byzantine replicas lead their views with well-formed blocks that repeat client commands: committed
+            # chains with duplicates, at replicas where a client waits and at replicas where none does
+            ["-only", "coop", "-runs", 2 * k, "-steps", 260, "-rulesets", "chainedhotstuff,simplehotstuff"],
+            ["-heal", "-nobyz", "-suffix", 16, "-only", "long-laggard", "-runs", k, "-steps", 400, "-rulesets", "chainedhotstuff,simplehotstuff"],
             ["-heal", "-nobyz", "-suffix", 12, "-only", "laggard", "-runs", k, "-steps", 150],
             # ... and one that was away for some 45 views in which the others kept committing
             ["-heal", "-nobyz", "-suffix", 16, "-only", "long-laggard", "-lagviews", 45, "-runs", k // 2, "-steps", 1500, "-rulesets", "chainedhotstuff,simplehotstuff"]]
